@@ -64,8 +64,15 @@ theorem sp_joinWith (vs : List Str) (h : vs ≠ []) : ' ' :: joinWith [' '] vs =
       simp only [joinWith, List.flatMap_cons] at this ⊢
       rw [← this]; simp
 
+theorem kw_nil (k : String) (k0 : Char) (ks : Str) (hk : k.toList = k0 :: ks) : kw k [] = none := by
+  simp [kw, ws, skip, hk, stripCI]
+
+theorem readModifiersR_nil : readModifiersR [] = some ((none, none, none), []) := by
+  simp [readModifiersR, kw_nil "ORDER" 'O' "RDER".toList (by decide), kw_nil "LIMIT" 'L' "IMIT".toList (by decide),
+    kw_nil "OFFSET" 'O' "FFSET".toList (by decide)]
+
 theorem readModifiers_nil : readModifiers [] = some (none, none, none) := by
-  simp [readModifiers, kw, stripCI, ws, skip]
+  simp [readModifiers, readModifiersR_nil, ws, skip]
 
 theorem kw_SELECT (r : Str) : kw "SELECT" ('S' :: 'E' :: 'L' :: 'E' :: 'C' :: 'T' :: ' ' :: r) = some (' ' :: r) := by
   simp [kw, stripCI, ws, skip, isWs, upperChar, isNameChar, isAlpha, isDigit]
